@@ -1,8 +1,9 @@
 """C06 — see properties.jsonl."""
 from . import proc_common as PC
+from . import c08 as C08
 from .proc_common import TRUSTED_BASE, ASSUMPTIONS
 
-COQ_FILES = ["Proc.v", "ProcExec.v", "ProcProofs.v", "PropsProc.v", "DeliverExec.v", "ProcSchedExec.v"]
+COQ_FILES = ["Proc.v", "ProcExec.v", "ProcProofs.v", "PropsProc.v", "DeliverExec.v", "ProcSchedExec.v", "Tree.v", "TreeProofs.v", "TreeExec.v", "PropsTree.v"]
 THEOREMS = ["C06_restarts_bounded", "C06_exceeding_stops_cleanly", "C06_later_sends_dead_letter", "C06_oracle_sound"]
 RULE = ("scripted single-actor scenarios on the real engine: the Started handler of the first incarnation forms the first batch "
         "from {message, panicking message, Poison(self), Stop(self)} (exhaustive to length 4/5), plus panics in Initialized/Started/"
@@ -15,4 +16,13 @@ class Part(PC.ProcPart):
     prop = 6
 
 
-PARTS = [Part()]
+class TreeBudget(C08.Tree):
+    """exceeding the budget takes the children down too: the supervision-tree scenarios in which a node
+    with children (scripted and spawned on demand) restarts and then exhausts its restart budget"""
+    name = "children_on_budget_exhaustion"
+
+    def generate(self, rng, tier):
+        return [c for c in super().generate(rng, tier) if c.get("class", "").startswith("restart")]
+
+
+PARTS = [Part(), TreeBudget()]
